@@ -101,6 +101,8 @@ def strip_macro_calls(body, name, replace):
 
 
 def apply_rules(body, profile, log_rules):
+    ctr = [0]
+
     def rm(args, semi):
         log_rules.add("R-mac0 vprintln! removed")
         return ""
@@ -108,14 +110,20 @@ def apply_rules(body, profile, log_rules):
 
     def as_assert(args, semi):
         cond = L.split_top_commas(args)[0].strip()
-        log_rules.add("R-assert assert!(c, ..) -> assert(c) (panic site becomes a proof obligation)")
-        return "assert(%s)%s" % (cond, ";" if semi else "")
+        log_rules.add("R-assert assert!(c, ..) -> { let b = c; assert(b) } (condition still evaluated in exec mode; the panic site becomes a proof obligation)")
+        ctr[0] += 1
+        if not semi:
+            return "{ let verif_assert_cond: bool = %s; assert(verif_assert_cond); }" % cond
+        return "let verif_assert_cond_%d: bool = %s; assert(verif_assert_cond_%d);" % (ctr[0], cond, ctr[0])
     body = strip_macro_calls(body, "assert", as_assert)
 
     def as_assert_eq(args, semi):
         a = L.split_top_commas(args)
-        log_rules.add("R-assert assert_eq!(a, b, ..) -> assert(a == b)")
-        return "assert((%s) == (%s))%s" % (a[0].strip(), a[1].strip(), ";" if semi else "")
+        log_rules.add("R-assert assert_eq!(a, b, ..) -> { let b = a == b; assert(b) }")
+        ctr[0] += 1
+        if not semi:
+            return "{ let verif_assert_cond: bool = (%s) == (%s); assert(verif_assert_cond); }" % (a[0].strip(), a[1].strip())
+        return "let verif_assert_cond_%d: bool = (%s) == (%s); assert(verif_assert_cond_%d);" % (ctr[0], a[0].strip(), a[1].strip(), ctr[0])
     body = strip_macro_calls(body, "assert_eq", as_assert_eq)
 
     def dbg(args, semi):
@@ -198,9 +206,20 @@ def splice(sig, body, spec, loops, ghosts, ret, make_pub, rules):
     return sig2 + spec_txt + body
 
 
+def expand_includes(text):
+    out = []
+    for ln in text.split("\n"):
+        if ln.startswith("//@include "):
+            inc = os.path.join(CONTRACTS, "verus", "include", ln.split()[1])
+            out.extend(read(inc).split("\n"))
+        else:
+            out.append(ln)
+    return "\n".join(out)
+
+
 def render(vu):
     """returns (generated_text, fn_ranges [(first_line, last_line, obligation_id, kind)], extraction_log)"""
-    lines = vu.text.split("\n")
+    lines = expand_includes(vu.text).split("\n")
     out = []
     ranges = []
     exlog = []
@@ -246,6 +265,11 @@ def render(vu):
                     raise Undecided("lost anchor: rewrite source %r not found in %s" % (a, kv["fn"]))
                 body2 = body2.replace(a, b)
                 rules.add("R-rewrite %r -> %r" % (a, b))
+            for (a, b) in [tuple(r.split("=>", 1)) for r in kv.get("sigrewrite", "").split("||") if "=>" in r]:
+                if a not in sig:
+                    raise Undecided("lost anchor: signature rewrite source %r not found in %s" % (a, kv["fn"]))
+                sig = sig.replace(a, b)
+                rules.add("R-sig %r -> %r" % (a, b))
             text = splice(sig, body2, spec, loops, ghosts, kv.get("ret", "r"), kv.get("pub", "yes") == "yes", rules)
             first = len(out) + 1
             out.extend(text.split("\n"))
